@@ -399,6 +399,65 @@ def check_wrong_type(job):
             "cls": "wrong-type" if msgs else None}
 
 
+PREFIXES = ["proj/cmake", "./p", "a//b", "trail/", "$HOME", "api-${HOME}", "~", "%(x)s", "{0}", "two words", "dots.in.it", "../up"]
+
+
+def check_prefix_text(job):
+    """the prefix in effect is the text that was set (whatever it looks like), through the complete run: the page of a.cmake is
+    titled <prefix>.a"""
+    prefix, src = job
+    box = fsbox.Box("c16p2")
+    msgs = []
+    try:
+        box.build({"in/a.cmake": "set(A 1)\n"})
+        with open(box.path("work", "s.yaml"), "w") as f:
+            f.write(yaml_dump({"rst": {"prefix": prefix}}) if src == "sfile" else "{}\n")
+        argv = ["-s", "s.yaml", "-o", "out"] + (["-p", prefix] if src == "cli" else []) + ["in"]
+        r = box.run(argv, user_config=yaml_dump({"rst": {"prefix": prefix}}) if src == "user" else None, env={"HOME": "/somewhere/else"})
+        if r["status"] != 0:
+            msgs.append(f"error: run failed: {r['exc'] or r['stdout'][-200:]}")
+        else:
+            lines = [l for l in box.files("work/out")["a.rst"].split("\n") if l.strip()]
+            index = [l for l in box.files("work/out")["index.rst"].split("\n") if l.strip()]
+            if lines[1] != prefix + ".a" or f".. module:: {prefix}.a" not in lines:
+                msgs.append(f"prefix-text: rst.prefix {prefix!r} set by {src}: the page of a.cmake is titled {lines[1]!r}, expected {prefix + '.a'!r}")
+            if index[1] != prefix:
+                msgs.append(f"prefix-text: rst.prefix {prefix!r} set by {src}: the index is titled {index[1]!r}")
+    finally:
+        box.cleanup()
+    return {"viol": msgs[:2], "obs": common.digest([job, msgs]), "n": 1, "nt": common.digest(job), "cls": "prefix-text" if msgs else None,
+            "case": {"prefix_text": list(job)}}
+
+
+def check_null(job):
+    """an explicit null: for the optional options (rst.prefix, output.directory) it is a value like any other and follows the
+    priority of its source; for every other option it is a wrongly typed value"""
+    sec, opt, typ, src = job
+    dflt = defaults()
+    box = fsbox.Box("c16n")
+    msgs = []
+    try:
+        box.build({"in/a.cmake": "set(A 1)\n"})
+        lower = (not dflt[(sec, opt)]) if typ == "bool" else value_for(typ, "user", opt) if typ in ("str", "list") else "lowval"
+        s_tree = {sec: {opt: None}} if src == "sfile" else {}
+        u_tree = {sec: {opt: None}} if src == "user" else {sec: {opt: lower}}
+        st, status, exc = run_main(box, [], s_tree, u_tree)
+        optional = (sec, opt) in (("rst", "prefix"), ("output", "directory"))
+        if optional:
+            if st is None:
+                msgs.append(f"error: main() failed for {sec}.{opt}: null in the {src} file: {exc}")
+            elif get(st, sec, opt) is not None and src == "sfile":
+                msgs.append(f"precedence: {sec}.{opt} is {get(st, sec, opt)!r}: the null in the -s file is overridden by the user configuration")
+        elif st is not None and typ != "str":
+            # (a null for a plain string option is read as 'not set' by the configuration library: not judged either way)
+            got = get(st, sec, opt)
+            msgs.append(f"wrong-type: {sec}.{opt} given null in the {src} file is silently replaced by {got!r}")
+    finally:
+        box.cleanup()
+    return {"viol": msgs, "obs": common.digest([job, not msgs]), "n": 1, "nt": common.digest(job), "cls": msgs[0].split(":")[0] if msgs else None,
+            "case": {"null": list(job)}}
+
+
 def check_wrong_excludes(job):
     """a wrongly typed exclude_filters value in one file source while another source gives a valid list: the union cannot
     be formed, the run must be refused (never: the bad layer silently dropped)"""
@@ -471,6 +530,9 @@ def run(ctx):
     wjobs = [(sec, opt, typ, src, bad) for sec, opt, typ in OPTIONS for src in ("sfile", "user") for bad in WRONG[typ]]
     ctx.sweep(check_wrong_type, wjobs, space="wrong-typed values", selftest=2)
     # ... and lists whose entries are not strings (YAML reads 1.10, on, ~ as a number, a boolean, null)
+    ctx.sweep(check_prefix_text, [(p_, src) for p_ in PREFIXES for src in ("cli", "sfile", "user")], space="prefix texts through the complete run", selftest=1)
+    nj = [(sec, opt, typ, src) for sec, opt, typ in OPTIONS + [("output", "directory", "str")] for src in ("sfile", "user")]
+    ctx.sweep(check_null, nj, space="explicit null per option and file source", selftest=1)
     xjobs = [(bs, bad, gs) for bs in ("sfile", "user") for bad in (7, True, {"k": "v"}, 1.5, [1.10], ["ok", True], [None], [["nested"]])
              for gs in ("cli", "sfile", "user", "none") if gs != bs]
     ctx.sweep(check_wrong_excludes, xjobs, space="wrongly typed exclude_filters below/above a valid list", selftest=1)
@@ -482,11 +544,17 @@ def run(ctx):
     ctx.cov["bounds"] = {"options": [f"{s}.{o}" for s, o, _ in OPTIONS] + ["input.exclude_filters", "output.directory"],
                          "sources": PRIORITY + ["defaults"]}
     ctx.assumptions += ["the logging section is outside the statement", "a store_true flag can only set True",
-                        "wrong type: rejection or use of the given value are both accepted, silent replacement is not"]
+                        "wrong type: rejection or use of the given value are both accepted, silent replacement is not",
+                        "an explicit null is judged for the two optional options (a value like any other) and for boolean/list options (rejected); "
+                        "for plain string options the configuration library reads it as 'not set' - not judged"]
     return RULE
 
 
 def replay(case):
+    if isinstance(case, dict) and "prefix_text" in case:
+        return check_prefix_text(tuple(case["prefix_text"]))["viol"]
+    if isinstance(case, dict) and "null" in case:
+        return check_null(tuple(case["null"]))["viol"]
     if isinstance(case, dict) and "wrong_excludes" in case:
         return check_wrong_excludes(tuple(case["wrong_excludes"]))["viol"]
     if isinstance(case, list) and len(case) == 2 and isinstance(case[1], bool):
